@@ -1,7 +1,7 @@
 SPECIFICATION TSpec
 CONSTANTS
   Coins = {"acoin", "bcoin"}
-  ExtContracts = {"x1", "x2"}
+  ExtContracts = {"x1", "x2", "x3"}
   BadContracts = {"xd", "xm"}
   ReindexAll = TRUE
   CheckNewAddr = TRUE
